@@ -84,6 +84,11 @@ fn alpha_for(name: &str, a: &Alpha) -> Alpha {
     if name == "LIST.ADD" || name == "LIST.SET" {
         a.ivs = vec![vec![], vec![9], vec![1, 9, 9], vec![11, 5, 3], vec![4, 10, 2, 6], vec![0, 13, -1, 9], vec![3, 3, 3]];
     }
+    if name == "BOOLVECTOR.RAND" || name == "FLOATVECTOR.RAND" {
+        // just outside [0, 1], signed zero, subnormal
+        a.floats.extend([-0.0, f32::from_bits(1.0f32.to_bits() + 1), 1.003, -1e-45, 0.996]);
+        a.ints.retain(|v| *v <= 9);
+    }
     if name == "EXEC.CMD" {
         a.ints = vec![-1, 0, 1, 2, 3, crate::alpha::IMAX, crate::alpha::IMIN];
     }
